@@ -636,6 +636,15 @@ func (e *Engine) headStates(pc *passCtx, b *ssa.BasicBlock, fwd map[edge][]*Stat
 			for _, c := range j.cons {
 				fmt.Fprintf(os.Stderr, "      %s <= 0\n", e.LinStr(c))
 			}
+			for _, s := range sts {
+				for k, m := range s.masks {
+					fmt.Fprintf(os.Stderr, "      in-mask %s idx=%s %s\n", k, e.LinStr(m.Idx), m.M)
+				}
+				fmt.Fprintln(os.Stderr, "      --")
+			}
+			for k, m := range j.masks {
+				fmt.Fprintf(os.Stderr, "      out-mask %s idx=%s %s\n", k, e.LinStr(m.Idx), m.M)
+			}
 		}
 		out = append(out, j.clone())
 	}
@@ -1048,22 +1057,41 @@ func (e *Engine) joinAllDefs(ss []*State, fr *Frame, where string, head bool, pe
 			}
 		}
 	}
-	for k, m := range ss[0].masks {
-		all := m.M
-		ok := true
-		for _, s := range ss[1:] {
-			m2, has := s.masks[k]
-			if !has {
-				ok = false
-				break
-			}
-			all = all.or(m2.M)
+	// byte masks: a fact about byte (root, idx) survives if every side knows something
+	// about that byte — looked up semantically (same key, or an index provably equal)
+	{
+		type mk struct {
+			root Sym
+			idx  Lin
 		}
-		if ok && !all.isFull() {
-			if old, had := R.masks[k]; had {
-				all = all.and(old.M)
+		cands := map[string]mk{}
+		for _, w := range work {
+			for k, m := range w.masks {
+				if _, ok := cands[k]; !ok {
+					cands[k] = mk{m.Root, m.Idx}
+				}
 			}
-			R.masks[k] = maskEnt{m.Root, m.Idx, all}
+		}
+		var mkeys []string
+		for k := range cands {
+			mkeys = append(mkeys, k)
+		}
+		sort.Strings(mkeys)
+		for _, k := range mkeys {
+			c := cands[k]
+			all := Mask{}
+			for _, w := range work {
+				all = all.or(e.mask(w, ByteV{Root: c.root, Idx: c.idx}))
+				if all.isFull() {
+					break
+				}
+			}
+			if !all.isFull() {
+				if old, had := R.masks[k]; had {
+					all = all.and(old.M)
+				}
+				R.masks[k] = maskEnt{c.root, c.idx, all}
+			}
 		}
 	}
 	for k, p := range ss[0].dirty {
